@@ -270,6 +270,13 @@ func main() {
 			}
 			streamRandom(emit, lib.NewRng(*seed), n)
 		}
+		if on("deep") {
+			n := 3000
+			if full {
+				n = 40000
+			}
+			streamDeep(emit, lib.NewRng(*seed^0xdee9), n)
+		}
 	})
 	// phase 2: texts (hand-written, and mutations of what phase 1 printed)
 	run(func(emit func(Case)) {
@@ -285,7 +292,7 @@ func main() {
 		fmt.Fprintln(os.Stderr, "harness failure:", e)
 		os.Exit(3)
 	}
-	rep.Rule = "objects built through the public jp constructors: every single-byte key and every pair (thorough: triple) over a class alphabet in child, first-child, after-descent, filter-path, string-constant and union positions; every fragment-kind sequence up to length 3 (4); slice/index/union integer boundaries; every equation tree with up to 3 operator nodes over the operator table (quick: one operator per precedence level and kind for 3 nodes) with constant and with path leaves; constant families (floats, lists, regexes); seeded random deep expressions and equations; then texts: hand-written and byte mutations of the printed texts. Each object: String and BracketString (or Equation/Script/Filter String) printed, re-parsed, re-printed, compared structurally and evaluated on data trees built from its keys; duplicates dropped by 64-bit hash; distinct_nontrivial counts objects with at least two fragments or one operator and texts of length >= 2"
+	rep.Rule = "objects built through the public jp constructors: every single-byte key and every pair (thorough: triple) over a class alphabet in child, first-child, after-descent, filter-path, string-constant and union positions; every fragment-kind sequence up to length 3 (4); slice/index/union integer boundaries; every equation tree with up to 3 operator nodes over the operator table (quick: one operator per precedence level and kind for 3 nodes) with constant and with path leaves; constant families (floats, lists, regexes); seeded random deep expressions and equations; a stream of seeded random equation trees with 4-6 levels of operator nesting over all 19 binary constructors, Not, length/count/match/search, every kind of constant in any position and path leaves with filters nested two levels (distribution under deep.*); then texts: hand-written and byte mutations of the printed texts. Each object: String and BracketString (or Equation/Script/Filter String) printed, re-parsed, re-printed, compared structurally and evaluated on data trees built from its keys; duplicates dropped by 64-bit hash; distinct_nontrivial counts objects with at least two fragments or one operator and texts of length >= 2"
 	if err := rep.Write(*outPath); err != nil {
 		fmt.Fprintln(os.Stderr, err)
 		os.Exit(3)
@@ -593,18 +600,31 @@ func processBatch(d *lib.Driver, batch []Case) error {
 		reqs = append(reqs, w.reqs...)
 		items[i] = w
 	}
+	t0 := time.Now()
 	ans, err := d.Ask(reqs)
 	if err != nil {
 		return err
 	}
+	if os.Getenv("VERIF_JPTEXT_TIMING") != "" {
+		fmt.Fprintln(os.Stderr, "TIMING ask", len(batch), time.Since(t0))
+	}
 	for _, w := range items {
+		if os.Getenv("VERIF_JPTEXT_TIMING") != "" {
+			t1 := time.Now()
+			defer func(w *work) {}(w)
+			_ = t1
+		}
 		w.ans = ans[w.first : w.first+len(w.reqs)]
 		for k, a := range w.ans {
 			if a == "bad-op" {
 				report("disagreement", "driver:bad-op", "the driver does not understand "+trunc(w.reqs[k], 200), w.c, nil)
 			}
 		}
+		t1 := time.Now()
 		w.judge()
+		if os.Getenv("VERIF_JPTEXT_TIMING") != "" && time.Since(t1) > 200*time.Millisecond {
+			fmt.Fprintln(os.Stderr, "TIMING judge", time.Since(t1), trunc(w.sEq, 300))
+		}
 	}
 	return nil
 }
@@ -989,6 +1009,12 @@ func (w *work) judgeEqn() {
 			}
 		}
 		rep.Count("oracle.eqn."+names[i]+"."+map[bool]string{true: "ok", false: "fails"}[verdict == ""], 1)
+		if c.Stream == "deep" {
+			// what the deep stream compared and how it ended, per text form
+			rep.Count("deep.text_bytes."+bucket(len(text), 32, 64, 128, 256, 512, 1024), 1)
+			rep.Count("deep.parse."+names[i]+"."+map[bool]string{true: "model_and_impl_accept", false: "other"}[mok && perr == ""], 1)
+			rep.Count("deep.oracle."+names[i]+"."+map[bool]string{true: "ok", false: "fails:" + verdict}[verdict == ""], 1)
+		}
 		if verdict != "" {
 			violation("eqn:"+verdict+":"+names[i], names[i]+" text "+q(text)+" does not round-trip: "+verdict, devs, c, extra)
 		}
